@@ -45,7 +45,7 @@ static int64_t q_allocs, q_fails, q_pops, q_wraps, q_resets, q_max_count;   /* t
 static struct jls_mrb_s *q_mrb;
 
 static void lockset_access(lockset_t *ls, const char *obj, const char *api) {
-    if (!g_monitor_on || !coop_active() || coop_threads_alive() < 2) return;
+    if (!g_monitor_on || !coop_active() || coop_threads_alive() < 2 || !coop_library_threads_alive()) return;   /* no consumer: the queue and the writer belong to the caller */
     const void *held[4]; int n = coop_held(held, 4);
     ls->accesses++;
     if (!ls->init) { ls->init = 1; ls->n = n; memcpy(ls->locks, held, sizeof(held)); }
@@ -139,6 +139,7 @@ typedef struct {
     size_t first_op[2], n_ops[2];   /* op ranges per thread (after the definition prefix) */
     size_t ndefs;
     int late_defs, rejected_defs;
+    int close_race; size_t race_first, race_n;   /* calls of thread 1 issued while thread 0 is inside jls_twr_close */
     char feat[200];
 } tprog_t;
 
@@ -225,6 +226,7 @@ static void build_tprog(tprog_t *tp, rng_t *r, const char *focus) {
                 uint32_t bytes = (uint32_t) rng_range(r, 1, maxb);
                 if (rng_chance(r, 1, 12)) bytes = tp->qsize - (uint32_t) rng_range(r, 40, 60);     /* almost the whole queue */
                 uint32_t n = bytes * 8 / (uint32_t) t->bits; if (!n) n = 1;
+                if (t->bits < 8) n += (uint32_t) rng_below(r, 8);   /* sub-byte types: calls that do not end on a byte boundary */
                 o->sid = base + pos[k]; o->n = n; o->vseed = rng_u64(r);
                 pos[k] += n;
             } else if (kind < 70) {
@@ -250,7 +252,22 @@ static void build_tprog(tprog_t *tp, rng_t *r, const char *focus) {
         }
         tp->n_ops[th] = p->n - tp->first_op[th];
     }
+    /* close race: a second producer whose last calls are accepted after CLOSE was queued but before the writer thread
+     * reaches it (only meaningful when the writer thread is starved until both producers are done: see run_case) */
+    if (tp->nthreads == 2 && rng_chance(r, 1, 6)) {
+        tp->close_race = 1; tp->qsize = 65536; tp->flags = 0;
+        tp->race_first = p->n;
+        int nr = (int) rng_range(r, 1, 4);
+        for (int q = 0; q < nr; ++q) {
+            op_t *o;
+            if (q % 2 == 0) { o = prog_add(p, OP_USER); o->meta = (uint16_t) (0x700 + q); o->stype = JLS_STORAGE_TYPE_BINARY; o->dsize = (uint32_t) rng_range(r, 8, 40); o->dseed = rng_u64(r); }
+            else { o = prog_add(p, OP_ANNO); o->id = 0; o->ts = 5000000 + q; o->y = 1.0f; o->atype = 1; o->group = (uint8_t) q; o->stype = JLS_STORAGE_TYPE_BINARY; o->dsize = 12; o->dseed = rng_u64(r); }
+            o->thread = 1;
+        }
+        tp->race_n = p->n - tp->race_first;
+    }
     snprintf(tp->feat, sizeof(tp->feat), "q=%u|drop=%d|threads=%d|late-def=%d|rej-def=%d", tp->qsize, tp->flags ? 1 : 0, tp->nthreads, tp->late_defs > 0, tp->rejected_defs > 0);
+    if (tp->close_race) snprintf(tp->feat + strlen(tp->feat), sizeof(tp->feat) - strlen(tp->feat), "|close-race");
 }
 
 /* ------------------------------ execution -------------------------------------------- */
@@ -313,12 +330,24 @@ static void exec_one(prog_t *p, op_t *o, op_t *prev) {
     if (o->kind != OP_FLUSH) { if (rc) { n_rejected++; if (rc == JLS_ERROR_BUSY) n_busy_timeouts++; } else n_accepted++; }
 }
 
+static volatile int g_closing, g_main_done, g_t1_done;
+static pthread_mutex_t g_hm = PTHREAD_MUTEX_INITIALIZER; static pthread_cond_t g_hc = PTHREAD_COND_INITIALIZER, g_hc1 = PTHREAD_COND_INITIALIZER;
 static void *app_thread(void *arg) {
     int th = (int) (intptr_t) arg;
     prog_t *p = &g_tp->p;
     for (size_t i = 0; i < g_tp->n_ops[th]; ++i) {
         op_t *o = &p->ops[g_tp->first_op[th] + i];
         exec_one(p, o, i ? o - 1 : NULL);
+    }
+    if (th == 1 && g_tp->close_race && g_controlled) {
+        /* blocked (not spinning, not sleeping) until thread 0 is about to close: thread 0 may still need the writer thread.
+         * Once signalled this thread stays runnable until its calls are issued, so the starved writer thread cannot reach
+         * the CLOSE message before them. */
+        pthread_mutex_lock(&g_hm);
+        g_t1_done = 1; pthread_cond_signal(&g_hc1);
+        while (!g_main_done) pthread_cond_wait(&g_hc, &g_hm);
+        pthread_mutex_unlock(&g_hm);
+        for (size_t i = 0; i < g_tp->race_n; ++i) exec_one(p, &p->ops[g_tp->race_first + i], NULL);
     }
     return NULL;
 }
@@ -356,6 +385,8 @@ static void run_case(uint64_t idx, void *vctx) {
     { static const double tj[] = {0, 0, 0.02, 0.2, 1.0}; cfg.time_jump_prob = RNG_PICK(&r, tj); }
     if (cfg.policy != POL_STARVE_CONSUMER && cfg.policy != POL_STARVE_PRODUCER && cfg.time_jump_prob > 0.5) cfg.time_jump_prob = 0.2;
     { static const int64_t uf[] = {2, 8, 30, 60}; cfg.unfair_until_ns = (1 + RNG_PICK(&r, uf)) * 1000000000LL; }
+    if (tp.close_race && g_controlled) { cfg.policy = POL_STARVE_CONSUMER; cfg.time_jump_prob = 0; cfg.unfair_until_ns = 3600LL * 1000000000LL; }
+    g_closing = 0; g_main_done = 0; g_t1_done = 0;
     char schedfeat[96];
     snprintf(schedfeat, sizeof(schedfeat), "%s|jump=%.2f", g_controlled ? POL_NAME[cfg.policy] : "real-threads", g_controlled ? cfg.time_jump_prob : 0.0);
     v_ctx("twr case %llu %s %s", (unsigned long long) idx, tp.feat, schedfeat);
@@ -376,11 +407,15 @@ static void run_case(uint64_t idx, void *vctx) {
     pthread_t th1; int have1 = 0;
     if (tp.nthreads == 2) { coop_mark_app_thread(); have1 = !pthread_create(&th1, NULL, app_thread, (void *) (intptr_t) 1); }
     app_thread((void *) (intptr_t) 0);
-    if (have1) pthread_join(th1, NULL);
+    int race = tp.close_race && g_controlled && have1;
+    if (have1 && !race) pthread_join(th1, NULL);
     coop_call_begin("jls_twr_close"); v_api("jls_twr_close");
     size_t ev_before_close = g_controlled ? g_io.n : 0;
+    if (race) { pthread_mutex_lock(&g_hm); while (!g_t1_done) pthread_cond_wait(&g_hc1, &g_hm); g_main_done = 1; pthread_cond_signal(&g_hc); pthread_mutex_unlock(&g_hm); }
+    g_closing = 1;
     rc = jls_twr_close(g_wr);
     coop_call_end(); v_api("");
+    if (race) pthread_join(th1, NULL);
     g_monitor_on = 0;
     /* close oracle: at return the descriptor is closed */
     int closed = 0;
@@ -412,7 +447,7 @@ static void run_case(uint64_t idx, void *vctx) {
              (long long) n_accepted, (long long) n_rejected, (long long) st.steps);
     int before = v_violation_count();
     decode_and_compare(path, &m, "C06", "twr", 0);
-    decode_and_compare(path, NULL, "C05", "twr", 0);
+    decode_and_compare(path, &m, "C05", "twr", 0);
     rng_t vr; rng_seed(&vr, vmix(g_seed, idx));
     verify_opts_t vo = {.prop_len = "C06", .prop_data = "C06", .prop_stats = "C06", .windows = 8, .check_defs = 1, .check_anno = 0, .check_utc = 0, .check_user = 0, .rng = &vr, .file_kind = "twr", .tolerate_omitted_tail = 1};
     verify_file(path, &m, &vo);
@@ -431,7 +466,12 @@ static void run_case(uint64_t idx, void *vctx) {
         }
         unlink(ref);
     }
-    if (v_violation_count() != before) v_note("C06", "%s", wj);
+    if (v_violation_count() != before) {
+        v_note("C06", "%s", wj);
+        /* C07: at the return of jls_twr_close every accepted call has been applied */
+        v_violation("C07", tp.close_race ? "close|accepted-calls-not-applied|calls-concurrent-with-close" : "close|accepted-calls-not-applied", wj,
+                    "after jls_twr_close returned the file does not hold every accepted call (see the C06 records of this case)");
+    }
     /* ---- evidence ---- */
     v_feature("C14", g_io.n_write > 0, "twr|threads=%d|late-def=%d|hdr-rewrites=%d", tp.nthreads, tp.late_defs > 0, g_io.n_inplace_hdr > 8 ? 2 : g_io.n_inplace_hdr > 0);
     v_count("C14", "backend_writes", (int64_t) g_io.n_write); v_count("C14", "appends", (int64_t) g_io.n_append); v_count("C14", "inplace_header_rewrites", (int64_t) g_io.n_inplace_hdr);
